@@ -511,7 +511,8 @@ class Unit:
 
         _length = length if length else context.resolve(self.length_var)
 
-        if _length not in ("short", "long", "narrow"):
+        # An undefined length is not an error, whatever the undefined policy.
+        if is_undefined(_length) or _length not in ("short", "long", "narrow"):
             _length = self.default_length
 
         assert isinstance(_length, str)
